@@ -835,12 +835,19 @@ def canFnDocumented (e : Endpoint) : Bool :=
 
 theorem can_fns_check_documented_permission : Endpoint.all.all canFnDocumented = true := by decide
 
+def lookupCalls (xs : List (String × List String)) (k : String) : Option (List String) :=
+  (xs.find? (·.1 = k)).map (·.2)
+
 set_option maxRecDepth 100000 in
-/-- `HasPermission` = authority ∨ store has the key, `IsAuthority` compares with the keeper's
-authority: the source of the two helpers the model's `hasPermission` mirrors. -/
+/-- `HasPermission` depends on exactly the authority test, the bech32 decoding of the address and
+the store look-up, and `IsAuthority` is the case-insensitive comparison with the keeper's
+authority. `HasPermission` is pinned by the SET of functions it calls (robust against harmless
+re-arrangements of its body; a new dependency — a bypass, another way to qualify — changes the set);
+what it computes from them is tied by the correspondence stream's `hasperm` op, which calls the real
+`Keeper.HasPermission` with granted / ungranted accounts in every spelling. -/
 theorem hasPermission_source :
-    lookup Generated.guardBodies "exchange.Keeper.HasPermission" =
-      some "{ if k.IsAuthority(address) { return true } addr, err := sdk.AccAddressFromBech32(address) if err != nil { return false } return storeHasPermission(k.getStore(ctx), marketID, addr, permission) }"
+    lookupCalls Generated.guardCalls "exchange.Keeper.HasPermission" =
+      some ["k.IsAuthority", "k.getStore", "sdk.AccAddressFromBech32", "storeHasPermission"]
     ∧ lookup Generated.guardBodies "exchange.Keeper.IsAuthority" =
       some "{ return strings.EqualFold(k.authority, addr) }" := by decide
 
